@@ -526,6 +526,13 @@ func (w *world) motifStaleSigner(r *mrand.Rand, variant int) {
 		return
 	}
 	k := mon.Pick(r, w.keys)
+	if r.IntN(2) == 0 { // RSA keys exercise the signer's algorithm -> flag mapping
+		for _, c := range w.keys {
+			if c.algo == "ssh-rsa" {
+				k = c
+			}
+		}
+	}
 	var life uint32
 	if variant%4 == 3 && w.sleep != nil {
 		life = 2
